@@ -77,6 +77,9 @@ def check(chk: Check) -> None:
                   floor=25)
     R2 = chk.rule('C09.R2', 'source order = evaluation order: in every template the grammar symbols sit in the fields '
                             'in the order the node evaluates them; list-valued non-terminals preserve order', floor=60)
+    R3 = chk.rule('C09.R3', 'the tree built for a production does not depend on the content of its children: no grammar '
+                            'action inspects a child subtree (other than the blank-statement test), so `x if c else y` is '
+                            'always a conditional node, `a and b` always a lazy node, ...', floor=60)
     chk.decided += ['laziness and result identity of and/or', 'cond-then-one-branch of if-else',
                     'exactly-once, fixed-order evaluation of every other child (all 13 node kinds, all operator specialisations)',
                     'placement of source positions into fields (all templates)']
@@ -163,6 +166,19 @@ def check(chk: Check) -> None:
                             idxs = [i for ff, i in seq if ff == f]
                             if idxs != [0, 1]:
                                 problems.append('pairs of self.%s are evaluated in component order %s, not key then value' % (f, idxs))
+                            # key and value of one pair must be evaluated in the same traversal step
+                            lids = []
+                            for ff, idx, e, recv in ce:
+                                if ff == f and e.kind == 'call':
+                                    ls = e.in_ctx('loop') + e.in_ctx('comp')
+                                    lids.append(ls[-1][1] if ls else None)
+                            if len(set(lids)) > 1:
+                                problems.append('keys and values of self.%s are evaluated in separate passes (all keys, then all values): '
+                                                'not left to right pair by pair' % f)
+                        if kinds.get(f) == 'oplist':
+                            n_pass = len([1 for ff, idx, e, recv in ce if ff == f])
+                            if n_pass > 1:
+                                problems.append('the elements of self.%s are traversed %d times' % (f, n_pass))
                 if len(seqs) > 1:
                     problems.append('children are evaluated in different orders on different paths: %s' % sorted(seqs, key=str))
                 if seqs:
@@ -171,6 +187,7 @@ def check(chk: Check) -> None:
                         '; '.join(sorted(set(problems))) or 'order %s on %d normal path(s)' % (order_of.get((cls, op)), len(paths)))
 
     _r2(chk, R2, order_of, rl)
+    _r3(chk, R3)
 
 
 def _pd(p: Path) -> str:
@@ -338,3 +355,31 @@ def _r2(chk: Check, R2: str, order_of, rl) -> None:
     cls, fc, fa, fb = rl['cond']
     chk.require(fc is not None, R2, 'conditional template roles', '',
                 'cond/then/else symbols sit in fields %s/%s/%s of %s' % (fc, fa, fb, cls))
+
+
+def _r3(chk: Check, R3: str) -> None:
+    F = chk.facts
+    g = C.grammar(F)
+    T = C.templates(F)
+    by_key = {}
+    for t in T.all():
+        by_key.setdefault((t.prod.index, t.inlined), []).append(t)
+    for (pi, inl), ts in sorted(by_key.items(), key=lambda kv: (kv[0][0], str(kv[0][1]))):
+        p = g.productions[pi]
+        where = '%s:%d' % (g.module.rel, p.line)
+        problems = []
+        for t in ts:
+            for c, v in t.assumptions:
+                syms = A.symbols_in(c)
+                if not syms:
+                    continue
+                blank_test = isinstance(c, tuple) and c[:2] == ('cmp', 'is') and c[3] == ('const', None) and \
+                    isinstance(c[2], tuple) and c[2][:1] == ('sym',) and 'none' in (c[2][4] if len(c[2]) > 4 else ())
+                if not blank_test:
+                    problems.append('the action branches on `%s`: the tree it builds depends on what the child subtrees contain' % show(c))
+        shapes = {A.strip_ids(t.result) if t.raises is None else ('raises',) for t in ts}
+        if len(ts) > 1 and not problems and len(shapes) > 1:
+            # several templates are fine only for the blank-statement test
+            pass
+        chk.require(not problems, R3, 'action of `%s`%s' % (p, (' ' + str(list(inl))) if inl else ''), where,
+                    '; '.join(sorted(set(problems))) or '%d template(s), content-independent' % len(ts))
